@@ -251,7 +251,7 @@ impl LineSymbolMap {
         // Check not overlapping:
         let not_overlapping = bl.windows(2).all(|win| {
             let [(ls, lb), (rs, _)] = win else { unreachable!() };
-            ls + lb.len() <= *rs
+            ls.checked_add(lb.len()).is_some_and(|le| le <= *rs)
         });
 
         match not_overlapping {
@@ -284,7 +284,7 @@ impl LineSymbolMap {
                 // and then find the line index once it's found.
                 words.binary_search(&addr)
                     .ok()
-                    .map(|o| start + o)
+                    .map(|o| start.saturating_add(o))
             })
     }
 
@@ -443,7 +443,7 @@ struct SymbolData {
 impl SymbolData {
     /// Calculates the source range of this symbol, given the name of the label.
     fn span(&self, label: &str) -> Range<usize> {
-        self.src_start .. (self.src_start + label.len())
+        self.src_start .. self.src_start.saturating_add(label.len())
     }
 }
 
@@ -475,7 +475,7 @@ impl DebugSymbols {
         // B doesn't overlap with A because ObjectFile check
         a.line_map.0.extend({
             b.line_map.0.into_iter()
-                .map(|(k, v)| (k + lines, v))
+                .map(|(k, v)| (k.saturating_add(lines), v))
         });
 
         a.src_info = SourceInfo::from_string(a.src_info.src + "\n" + &b.src_info.src);
@@ -1222,8 +1222,9 @@ impl ObjectFile {
         let mut second = a_obj.block_map.iter();
         second.next();
         if std::iter::zip(first, second).any(|((&a_st, a_bl), (&b_st, b_bl))| {
-            let ar = a_st .. (a_st + a_bl.len() as u16);
-            let br = b_st .. (b_st + b_bl.len() as u16);
+            // (in u32, because blocks of an untrusted object file may reach past xFFFF)
+            let ar = u32::from(a_st) .. (u32::from(a_st) + a_bl.len() as u32);
+            let br = u32::from(b_st) .. (u32::from(b_st) + b_bl.len() as u32);
             ranges_overlap(ar, br)
         }) {
             return Err(AsmErr::new(AsmErrKind::OverlappingBlocks, []));
@@ -1250,7 +1251,7 @@ impl ObjectFile {
 
                 // For every label in symbol table B:
                 for (label, mut b_sym_data) in label_map {
-                    b_sym_data.src_start += b_src_offset;
+                    b_sym_data.src_start = b_sym_data.src_start.saturating_add(b_src_offset);
                     match a_sym.label_map.entry(label) {
                         Entry::Occupied(mut e) => {
                             let &a_sym_data = e.get();
